@@ -1,4 +1,4 @@
-from . import rules_rep, rules_hash, rules_c02, inputs
+from . import rules_rep, rules_hash, rules_c02, rules_list, inputs
 from spec import geometry as G
 
 
@@ -13,6 +13,7 @@ def self_controls(prog, facts):
 def run(ctx, prog, facts, tier):
     I = inputs.make_interp(prog, fuel=40000000)
     rules_rep.check_c05(ctx, prog, I, tier == 'quick')
+    rules_list.check_list(ctx, prog, I, 'C05')
     # C05.5: captured pieces of both colours on all traps change the hash (C08 coverage clause)
     sqs = sorted(set(n for t in G.TRAPS for n in G.neighbours(t))) if tier == 'quick' else list(range(64))
     rules_hash.check_move_hash(ctx, prog, I, rules_c02.moves(True, sqs)[:: (3 if tier == 'quick' else 1)])
